@@ -32,14 +32,14 @@ META = {
         'degenerate rectangles and every sprite width 1..18, 31..33, 63..65, 70 at 8 horizontal alignments.'),
     'level_note': (
         'Every coordinate form is covered (absolute, STEP on the first / second / both points, omitted first point, PSET/PRESET STEP, GET ..-STEP, CIRCLE STEP compared with its absolute form) after a history statement moved the last referenced point; that point is OBSERVED through POINT(0)/POINT(1), the second point with STEP is taken relative to the first (GW-BASIC manual), and POINT(0)/POINT(1) afterwards must be the last point the statement referenced (key coord:last-point-after:<PRIM>). The statement does not pin WHICH 8-connected path a line takes (rounding), nor default colours, styles or clipped cases: not tested. '
-        'PUT is also checked pixel by pixel for every action verb and for the omitted verb (= XOR) on the random background: target := op(target, image) with the image taken from the snapshot of the GET rectangle (verb semantics from the GW-BASIC manual; the width GET records per requested pixel is observed once per session, 2 in Tandy/PCjr SCREEN 6). GET may legitimately refuse a rectangle (Tandy SCREEN 6 reads twice the width): a refused GET/PUT pair is counted (sprite_rejected) '
+        'Colour NUMBERS beyond the mode\'s highest attribute (up to 255) are written for PSET/PRESET, LINE, B, BF (expected: the highest attribute, the documented clamping), and for CIRCLE and DRAW C; every pixel a statement stores and every pixel of the page afterwards must be an attribute of the mode (read from the page buffer). PUT is also checked pixel by pixel for every action verb and for the omitted verb (= XOR) on the random background: target := op(target, image) with the image taken from the snapshot of the GET rectangle (verb semantics from the GW-BASIC manual; the width GET records per requested pixel is observed once per session, 2 in Tandy/PCjr SCREEN 6). GET may legitimately refuse a rectangle (Tandy SCREEN 6 reads twice the width): a refused GET/PUT pair is counted (sprite_rejected) '
         'and only the literal clause (screen unchanged / restored) is checked. Trusted: page-buffer read (validated against Session.get_pixels), '
         'determinism of a statement executed twice.'),
     'rule': ('case = (mode, primitive, coordinates, colours[, sprite source rectangle]); distinct by that tuple; non-trivial = the statement '
              'ran without error and (for sprites) covered at least one pixel; background contents differ for every case'),
     'design_ref': 'DESIGN.md section 4 C31',
     'assumptions': ['a statement repeated with another colour draws the same pixel set'],
-    'require_counters': {'any': ['verb_pset', 'verb_preset', 'verb_and', 'verb_or', 'verb_xor', 'verb_omitted', 'verb_cases_changing_pixels', 'xor_twice_verb_omitted', 'form_step_abs', 'form_abs_step', 'form_omit_abs', 'form_omit_step', 'form_step_step', 'form_pset_step', 'form_get_step', 'circle_step_cases', 'last_point_elsewhere', 'last_point_matched', 'history_nonzero_page', 'history_mode_change_keeping_pages', 'history_active_ne_visible', 'pset_cases', 'line_cases', 'lines_steep', 'lines_shallow', 'lines_diagonal', 'lines_axis_parallel',
+    'require_counters': {'any': ['colour_number_beyond_range', 'colour_cases_circle', 'colour_cases_draw', 'verb_pset', 'verb_preset', 'verb_and', 'verb_or', 'verb_xor', 'verb_omitted', 'verb_cases_changing_pixels', 'xor_twice_verb_omitted', 'form_step_abs', 'form_abs_step', 'form_omit_abs', 'form_omit_step', 'form_step_step', 'form_pset_step', 'form_get_step', 'circle_step_cases', 'last_point_elsewhere', 'last_point_matched', 'history_nonzero_page', 'history_mode_change_keeping_pages', 'history_active_ne_visible', 'pset_cases', 'line_cases', 'lines_steep', 'lines_shallow', 'lines_diagonal', 'lines_axis_parallel',
                                  'box_cases', 'boxfill_cases', 'getput_cases', 'xor_cases', 'xor_changed_seen',
                                  'sprite_width_not_multiple_of_8', 'bpp_1', 'bpp_2', 'bpp_4', 'point_matched']},
     'timeout': {'quick': 900, 'thorough': 3600},
@@ -52,7 +52,7 @@ def plan(tier, seed):
     if tier == 'quick':
         groups = gfx.balanced_groups(labels, 12, lambda l: 3.0 + 6e-6 * gfx.mode_cost(gfx.MODE_BY_LABEL[l]))
         for i, g in enumerate(groups):
-            shards.append({'kind': 'geom', 'modes': g, 'n': 700, 'part': i, 'directed': True})
+            shards.append({'kind': 'geom', 'modes': g, 'n': 550, 'part': i, 'directed': True})
     else:
         for l in labels:
             for p in range(4):
@@ -73,9 +73,56 @@ class Ctx(object):
 
     def two_colours(self, rng):
         n = self.g.nattr
-        c1 = rng.randrange(n)
+        c1 = rng.randrange(n) if rng.random() < 0.7 else n - 1
         c2 = rng.choice([c for c in range(n) if c != c1])
+        if rng.random() < 0.3:
+            c1, c2 = c2, c1
         return c1, c2
+
+    def number_for(self, rng, attr):
+        """
+        The colour NUMBER written in the statement for attribute `attr`: the attribute itself, or - for the
+        highest attribute - any number up to 255 (numbers beyond the mode's range give the highest attribute).
+        """
+        n = self.g.nattr
+        if attr == n - 1 and n <= 255 and rng.random() < 0.45:
+            self.res.count('colour_number_beyond_range')
+            return rng.choice([n, n + 1, 15 if n <= 15 else 16, 16, 127, 255, rng.randint(n, 255)])
+        return attr
+
+    def valid_page(self, snap, what, case):
+        top = max(snap)
+        if top >= self.g.nattr:
+            i = snap.index(top)
+            self.res.violation('colour:attribute-out-of-range-in-page',
+                               '%s: after %s pixel (%d,%d) holds %d; the mode has attributes 0..%d' % (
+                                   self.g.mode['label'], what, i % self.g.w, i // self.g.w, top, self.g.nattr - 1), case)
+
+    def colour_case(self, rng, prim):
+        """CIRCLE / DRAW with a colour number beyond the range: every pixel they change must hold the highest attribute."""
+        g, res = self.g, self.res
+        n = g.nattr
+        num = rng.choice([n, n + 1, 16, 31, 100, 255, rng.randint(n, 255)])
+        exp = n - 1
+        cx, cy = rng.randint(30, g.w - 31), rng.randint(30, g.h - 31)
+        if prim == 'CIRCLE':
+            stmt = b'CIRCLE(%d,%d),%d,%d' % (cx, cy, rng.randint(1, 25), num)
+        else:
+            stmt = b'DRAW "BM%d,%d C%d R%d D%d L%d"' % (cx, cy, num, rng.randint(1, 20), rng.randint(1, 20), rng.randint(1, 20))
+        case = {'mode': g.mode['label'], 'prim': prim, 'stmt': stmt, 'colour_number': num}
+        s0 = g.active()
+        if not self.run(stmt, 'colour', case):
+            return
+        s1 = g.active()
+        d = gfx.diff_points(s0, s1, g.w, g.h)
+        res.case(('colour', (g.mode['label'], g.apage, g.vpage), stmt))
+        res.count('colour_cases_' + prim.lower())
+        bad = [q for q in d if s1[q[1] * g.w + q[0]] != exp]
+        if bad:
+            x, y = bad[0]
+            res.violation('colour:stored-attribute:' + prim, '%s: %s stored %d at (%d,%d); colour number %d denotes attribute %d' % (
+                g.mode['label'], stmt.decode(), s1[y * g.w + x], x, y, num, exp), case)
+        self.valid_page(s1, stmt.decode(), case)
 
     def run(self, stmt, kind, case):
         """Direct-mode statement that the property says must work: an error is a refutation."""
@@ -96,15 +143,18 @@ class Ctx(object):
         g, res = self.g, self.res
         c1, c2 = self.two_colours(rng)
         case['colours'] = [c1, c2]
+        n1, n2 = self.number_for(rng, c1), self.number_for(rng, c2)
+        case['colour_numbers'] = [n1, n2]
         s0 = g.active()
-        if not self.run(fmt % c1, kind, case):
+        if not self.run(fmt % n1, kind, case):
             return None
         if pre2 is not None:
             pre2()
         s1 = g.active()
-        if not self.run(fmt % c2, kind, case):
+        if not self.run(fmt % n2, kind, case):
             return None
         s2 = g.active()
+        self.valid_page(s2, (fmt % n2).decode('latin-1'), case)
         w, h = g.w, g.h
         d = gfx.diff_points(s1, s2, w, h)
         dset = set(d)
@@ -309,23 +359,23 @@ class Ctx(object):
         g, res = self.g, self.res
         s0 = g.active()
         old = self.pixel(s0, x, y)
-        c = rng.choice([k for k in range(g.nattr) if k != old])
+        c = rng.choice([k for k in range(g.nattr) if k != old] + ([g.nattr - 1] * 2 if old != g.nattr - 1 else []))
         case = {'mode': g.mode['label'], 'prim': 'PSET', 'xy': [x, y], 'colour': c, 'old': old}
-        stmt = b'PSET(%d,%d),%d' % (x, y, c)
+        stmt = b'PSET(%d,%d),%d' % (x, y, self.number_for(rng, c))
         if form is not None:
             # form = ('PSET' | 'PRESET', step?)
             lp = self.history(rng, kind=rng.choice(['pset', 'line', 'circle', 'draw', 'draw-move']))
             s0 = g.active()
             old = self.pixel(s0, x, y)
-            c = rng.choice([k for k in range(g.nattr) if k != old])
+            c = rng.choice([k for k in range(g.nattr) if k != old] + ([g.nattr - 1] * 2 if old != g.nattr - 1 else []))
             word, step = form
             if step and self.onscreen(lp):
-                stmt = b'%s STEP(%d,%d),%d' % (word, x - lp[0], y - lp[1], c)
+                stmt = b'%s STEP(%d,%d),%d' % (word, x - lp[0], y - lp[1], self.number_for(rng, c))
                 res.count('form_pset_step')
                 if lp != (x, y):
                     res.count('last_point_elsewhere')
             else:
-                stmt = b'%s(%d,%d),%d' % (word, x, y, c)
+                stmt = b'%s(%d,%d),%d' % (word, x, y, self.number_for(rng, c))
             case.update({'colour': c, 'old': old, 'last_point': list(lp) if lp else None, 'stmt': stmt})
         if not self.run(stmt, 'pset', case):
             res.case(('pset', (g.mode['label'], g.apage, g.vpage), x, y, c), nontrivial=False)
@@ -345,6 +395,7 @@ class Ctx(object):
         except harness.Internal as e:
             res.violation(e.key, 'POINT(%d,%d): %s' % (x, y, e), case)
             raise
+        self.valid_page(s1, stmt.decode(), case)
         if form is not None:
             self.check_lastpoint((x, y), 'PSET', case)
         if pv != c:
@@ -614,6 +665,8 @@ def random_case(ctx, rng):
             ctx.put_verb(rng, (min(xs), min(ys), sw, sh), dst, rng.choice(ctx.VERBS))
         else:
             ctx.sprite(rng, src, dst, xor, step=rng.random() < 0.3)
+        if rng.random() < 0.25:
+            ctx.colour_case(rng, rng.choice(['CIRCLE', 'DRAW']))
         if rng.random() < 0.2:
             r = rng.randint(0, 25)
             ctx.circle_step(rng, (rng.randint(r + 20, g.w - r - 21) if g.w > 2 * r + 42 else g.w // 2, rng.randint(r + 1, g.h - r - 2)), r)
@@ -695,6 +748,9 @@ def directed_forms(ctx):
                 ctx.pset(rng, x, y, form=(word, step))
     for (c, r) in [((cx, cy), 9), ((40, 30), 0), ((w - 30, h - 25), 20), ((cx - 20, cy + 10), 3)]:
         ctx.circle_step(rng, c, r)
+    for i in range(6):
+        ctx.colour_case(rng, 'CIRCLE')
+        ctx.colour_case(rng, 'DRAW')
     # every action verb and the omitted verb, several widths and alignments, overlapping and distant targets
     k = 0
     for verb in ctx.VERBS:
@@ -767,6 +823,10 @@ def run_mode(spec, rng, res, label):
             except gfx.ModeMismatch as e:
                 res.inconclusive('mode table: %s' % e)
                 return
+            except gfx.Corrupt as e:
+                res.violation('frame:page-buffer-corrupted:%s' % e.what, '%s: the screen can no longer be observed: %s' % (label, e), {'mode': label})
+                if phase == 'directed':
+                    break
             except harness.Internal:
                 # reported where it was caught; continue in a fresh session
                 res.count('internal_errors')
